@@ -443,6 +443,10 @@ class Path:
                 ft = self.ex.types.parse(ann, owner.module.name, ci)
                 obj.fields[f] = Lazy(ft, f'{name}.{f}')
             self.inputs[name] = obj
+            for f in list(obj.fields):   # containers: a union-typed override is resolved now, so that quantified
+                ov = self.ex.overrides.get(f'{name}.{f}')   # spec clauses over the field never have to fork
+                if ov is not None and ov[0] == 'union':
+                    obj.fields[f] = self.force(obj.fields[f])
             inv = self.ex.invariants.get(ci.qualname)
             if inv is None:
                 for c in self.index.mro(ci):
@@ -1314,6 +1318,8 @@ class Path:
                 return self.class_attr(ca[0], attr, ca[1])
             if attr == '__name__':
                 return ci.name
+            if attr == '__mro__':   # repository classes only (external bases such as ABC/object are never dispatch keys)
+                return tuple(ClassV(c) for c in self.index.mro(ci))
             raise SymRaise(mk_exc('AttributeError'), f'{ci.name}.{attr}')
         if isinstance(v, ModV):
             mi = self.index.module(v.name)
